@@ -138,3 +138,16 @@ def executable_exclusions(prop):
                                                                                SP.seq(SP.kw("class"), SP.ws1, SP.kw("default"))),
                            "`type is (...)`, `class is (...)`, `class default` are not declarations"))
     return out
+
+
+def ordered_alt_obligations(prop):
+    from revc.oblig import ordered_alternation
+    pats = live_patterns()
+    out = []
+    seen = set()
+    for b in read_cascade():
+        if b.kind != "regex" or b.regex in seen:
+            continue
+        seen.add(b.regex)
+        out += ordered_alternation(prop, f"ford.sourceform.FortranContainer.{b.regex}", pats[b.regex], b.mode)
+    return out
